@@ -16,6 +16,7 @@ INSENSITIVE_CONSUMERS = ["ExactSizeIterator::len", "Iterator::count", "Iterator:
 # calls on an element that are reads / commutative effects
 ELEMENT_INSENSITIVE = [
     "BTreeSet::insert", "HashSet::insert", "HashMap::insert", "BTreeMap::insert", "BTreeSet::contains", "HashSet::contains",
+    "HashSet::remove", "BTreeSet::remove", "HashMap::remove", "BTreeMap::remove",   # removing a set of keys is commutative
     "HashMap::contains_key", "HashMap::get", "BTreeMap::get", "Clone::clone", "AsRef::as_ref", "Deref::deref", "ToOwned::to_owned",
     "ToString::to_string", "String::as_str", "String::as_bytes", "str::as_bytes", "str::len", "String::len", "str::is_empty", "String::is_empty",
     "is_valid_label_name", "is_valid_metric_name", "check_bucket_label", re.compile(r"^core::fmt::"), re.compile(r"^std::fmt::"), "hint::must_use",
